@@ -94,6 +94,10 @@ func init() {
 	}
 	executors["C13.hexjson"] = func(a []string) string {
 		s := bscript.NewFromBytes(mustHex(a[0]))
+		// the renderings of one script object, in the order a caller may well use them: assembly, type, then hex and JSON —
+		// an earlier rendering must not change what a later one shows
+		_, _ = s.ToASM()
+		_ = s.ScriptType()
 		h := s.String()
 		b1, err := bscript.NewFromHexString(h)
 		if err != nil {
@@ -282,6 +286,20 @@ func genC13(e *emitter, tier string, seed uint64) {
 	}
 	rec(nil)
 	e.note("exhaustive.maxlen=" + strconv.Itoa(maxLen))
+	// (2b) data scripts made of short pushes (the assembly rendering shows them as numbers), every pair of lengths 0..5,
+	//      each followed by more script: rendering one after the other must not disturb the object
+	for _, prefix := range [][]byte{{0x6a}, {0x00, 0x6a}} {
+		for l1 := 0; l1 <= 5; l1++ {
+			for l2 := 0; l2 <= 5; l2++ {
+				sc := append([]byte{}, prefix...)
+				sc = append(append(sc, pushOf(r.bytes(l1))...), pushOf(r.bytes(l2))...)
+				sc = append(sc, pushOf(r.bytes(6+r.n(20)))...)
+				e.run("C13.hexjson", hex.EncodeToString(sc))
+				e.run("C13.asm", hex.EncodeToString(sc))
+				e.note("data-short-pushes")
+			}
+		}
+	}
 	// (3) well-formed scripts: every cut position; OP_RETURN tails; ASM/hex/JSON
 	m := 120
 	if !quick {
